@@ -35,6 +35,9 @@ class Env:
                 leg.sorted = bool(leg.is_sorted())
                 leg.bunched = bool(leg.is_bunched())
             self.pool.append(leg)
+        self.chinfo2 = None      # a DIFFERENT ChargeInfo (same mod, other names): spec['chinfo'] == 'other' (error classes)
+        self.pool2 = {}
+        self.case = case
         self.regs = []
         self.ext = []            # [(ndarray handed to tenpy, copy taken before)]: buffers owned by the caller
 
@@ -43,8 +46,19 @@ class Env:
         l = self.pool[t[1]]
         return l if t[2] == 1 else l.conj()
 
+    def leg2(self, t):
+        if self.chinfo2 is None:
+            self.chinfo2 = npc.ChargeInfo(list(self.case['mods']), ['other%d' % i for i in range(len(self.case['mods']))])
+        if t[1] not in self.pool2:
+            l = self.case['pool'][t[1]]
+            slices = np.concatenate([[0], np.cumsum(l['sizes'])]).astype(np.intp)
+            ch = np.array(l['charges'], dtype=np.int64).reshape(len(l['sizes']), len(self.case['mods']))
+            self.pool2[t[1]] = npc.LegCharge(self.chinfo2, slices, ch, l['qconj'])
+        l = self.pool2[t[1]]
+        return l if t[2] == 1 else l.conj()
+
     def array(self, spec):
-        legs = [self.leg(t) for t in spec['legs']]
+        legs = [(self.leg2(t) if spec.get('chinfo') == 'other' else self.leg(t)) for t in spec['legs']]
         dt = np.dtype(spec['dtype'])
         a = npc.Array(legs, dt, np.array(spec['qtotal'], dtype=np.int64), list(spec['labels']))
         data, qd = [], []
@@ -88,6 +102,12 @@ def layout_stats(a):
 
 
 def scalar(s):
+    if isinstance(s, list) and s[0] == 'b':                  # a python bool
+        return bool(s[1])
+    if isinstance(s, list) and s[0] == 'f':                  # ['f', 'nan' | 'inf' | '-inf']
+        return float(s[1])
+    if isinstance(s, list) and s[0] == 'raw':                # NOT a scalar (error classes of the prefactor argument)
+        return {'array0d': np.array(2.0), 'array1': np.array([2.0]), 'list': [2.0], 'none': None, 'str': 'x'}[s[1]]
     if isinstance(s, list) and s[0] == 'n':                  # ['n', dtype, re, im]: a numpy scalar (strongly typed)
         dt = np.dtype(s[1])
         return dt.type(complex(s[2], s[3])) if dt.kind == 'c' else dt.type(s[2])
@@ -97,7 +117,7 @@ def scalar(s):
 
 
 UNARY = {'real': np.real, 'imag': np.imag, 'abs': np.abs, 'sqrt': np.sqrt, 'conj': np.conj, 'negative': np.negative,
-         'square': np.square}
+         'square': np.square, 'asfortran': np.asfortranarray}
 
 
 def index_arg(spec):
@@ -231,6 +251,7 @@ def dense_expect(st, R, before):
         ax = st['axes']
         if isinstance(ax, int):
             return np.tensordot(A, B, axes=ax)
+        ax = [x if isinstance(x, list) else [x] for x in ax]
         return np.tensordot(A, B, axes=(idx(a, ax[0]), idx(b, ax[1])))
     if op in ('inner', 'w_inner'):
         ax = st['axes']
@@ -283,7 +304,7 @@ def dense_expect(st, R, before):
 # ------------------------------------------------------------------------------------------------
 
 INPLACE = {'iadd', 'isub', 'iadd_prefactor_other', 'iscale', 'iscale_prefactor', 'itranspose', 'iconj',
-           'imake_contiguous', 'idiv', 'iunary', 'setitem', 'iproject'}
+           'imake_contiguous', 'idiv', 'iunary', 'setitem', 'iproject', 'isort_qdata'}
 
 
 def direct_combine(a, groups):
@@ -321,10 +342,14 @@ def run_step(env, st):
         return env.array(st['spec'])
     if op == 'tensordot':
         ax = st['axes']
-        return npc.tensordot(a, b, axes=ax if isinstance(ax, int) else (ax[0], ax[1]))
+        if st.get('axes_np') and isinstance(ax, int):
+            ax = np.int64(ax)
+        return npc.tensordot(a, b, axes=ax if isinstance(ax, (int, np.integer)) else (ax[0], ax[1]))
     if op == 'w_tensordot':
         ax = st['axes']
-        a2, b2, n = npc._tensordot_transpose_axes(a, b, ax if isinstance(ax, int) else (ax[0], ax[1]))
+        if st.get('axes_np') and isinstance(ax, int):
+            ax = np.int64(ax)
+        a2, b2, n = npc._tensordot_transpose_axes(a, b, ax if isinstance(ax, (int, np.integer)) else (ax[0], ax[1]))
         if n == a2.rank and n == b2.rank:
             w = npc._inner_worker(a2, b2, False)
         elif n == 0 or a2.stored_blocks < 1 or b2.stored_blocks < 1 or (a2.stored_blocks == 1 and b2.stored_blocks == 1):
@@ -364,7 +389,12 @@ def run_step(env, st):
         a -= b
         return None
     if op == 'iadd_prefactor_other':
+        if 'b_raw' in st:            # an operand that is not an Array (error class)
+            b = {'ndarray': np.ones(a.shape), 'float': 2.0, 'none': None}[st['b_raw']]
         a.iadd_prefactor_other(scalar(st['s']), b)
+        return None
+    if op == 'isort_qdata':
+        a.isort_qdata()
         return None
     if op == 'scale':
         return a * scalar(st['s'])
@@ -509,6 +539,12 @@ def live_arrays(env):
 
 
 def run_program(case):
+    # case['optimize']: the global optimization level during the program (3 = skip_arg_checks: valid programs only)
+    with optimization.temporary_level(case.get('optimize')):
+        return _run_program(case)
+
+
+def _run_program(case):
     env = Env(case)
     out = []
     fps = {}
@@ -601,6 +637,16 @@ def run_program(case):
 # direct kernel calls
 # ------------------------------------------------------------------------------------------------
 
+def other_layout(x, how):
+    """the same int64 values as a strided view of a larger array / in Fortran order"""
+    if how == 'F':
+        return np.asfortranarray(x)
+    big = np.full([2 * n + 1 for n in x.shape], -99, dtype=x.dtype)
+    view = big[tuple(slice(1, 2 * n + 1, 2) for n in x.shape)]
+    view[...] = x
+    return view
+
+
 def run_kernel(c):
     f = c['f']
     if f in ('make_valid', 'check_valid'):
@@ -612,25 +658,39 @@ def run_kernel(c):
                 ch = np.array(ch, dtype=np.int64).reshape(c['shape'])
             elif c.get('as') == 'array32':
                 ch = np.array(ch, dtype=np.int32).reshape(c['shape'])
+            elif c.get('as') == 'tuple':
+                ch = tuple(tuple(r) if isinstance(r, list) else r for r in ch)
+            elif c.get('as') in ('strided', 'F'):
+                ch = other_layout(np.array(ch, dtype=np.int64).reshape(c['shape']), c['as'])
         arg_before = None if ch is None else np.array(ch, copy=True)
         if f == 'make_valid':
             r = ci.make_valid(ch)
             out = {'v': np.asarray(r).tolist(), 'dtype': str(np.asarray(r).dtype), 'shape': list(np.asarray(r).shape)}
         else:
-            r = ci.check_valid(np.array(ch, dtype=np.int64).reshape(c['shape']))
+            arg = np.array(ch, dtype=np.int64).reshape(c['shape'])
+            if c.get('as') in ('strided', 'F'):
+                arg = other_layout(arg, c['as'])
+            r = ci.check_valid(arg)
             out = {'v': bool(r)}
         if isinstance(ch, np.ndarray):
             out['arg_unchanged'] = bool(np.array_equal(ch, arg_before))
         return out
     if f == 'find_row_differences':
         q = np.array(c['q'], dtype=np.int64).reshape(c['shape'])
+        if c.get('as') in ('strided', 'F'):
+            q = other_layout(q, c['as'])
         r = chg._find_row_differences(q)
         return {'v': [int(x) for x in r], 'dtype': str(r.dtype)}
     if f == 'map_blocks':
         r = chg._map_blocks(np.array(c['bs'], dtype=np.intp))
         return {'v': [int(x) for x in r], 'dtype': str(np.asarray(r).dtype)}
     if f == 'make_stride':
-        r = chg._make_stride(list(c['shape']), c['cstyle'])
+        shape = list(c['shape'])
+        if c.get('as') == 'tuple':
+            shape = tuple(shape)
+        elif c.get('as') == 'ndarray':
+            shape = np.array(shape, dtype=np.intp)
+        r = chg._make_stride(shape, c['cstyle'])
         return {'v': [int(x) for x in r], 'dtype': str(r.dtype)}
     if f == 'sliced_copy':
         dt = np.dtype(c['dtype'])
@@ -857,6 +917,10 @@ def run_algo(c):
     raise ValueError(kind)
 
 
+AUX_HOOK = None          # callable run in the forked child after its cases; its JSON result is collected by the parent
+AUX_COLLECTED = []       # (coverage counters of harness/impl/c04_cov.py; None for the other users of isolated_all)
+
+
 def _child(f, cases):
     r, w = os.pipe()
     pid = os.fork()
@@ -869,8 +933,14 @@ def _child(f, cases):
                     out.append(f(c))
                 except Exception:
                     out.append({'runner_error': traceback.format_exc()[-1500:]})
+            aux = None
+            if AUX_HOOK is not None:
+                try:
+                    aux = AUX_HOOK()
+                except Exception:
+                    aux = {'aux_error': traceback.format_exc()[-800:]}
             with os.fdopen(w, 'w') as fh:
-                json.dump(out, fh)
+                json.dump({'__out__': out, '__aux__': aux}, fh)
         finally:
             os._exit(0)
     os.close(w)
@@ -880,7 +950,10 @@ def _child(f, cases):
     if os.WIFSIGNALED(status):
         return None, int(os.WTERMSIG(status))
     try:
-        return json.loads(txt), None
+        doc = json.loads(txt)
+        if doc.get('__aux__') is not None:
+            AUX_COLLECTED.append(doc['__aux__'])
+        return doc['__out__'], None
     except Exception:
         return None, -1
 
@@ -905,12 +978,37 @@ def isolated_all(f, cases, batch=25):
 def main():
     payload = json.load(open(sys.argv[1]))
     kind = payload['kind']
+    cov_info = None
+    c04_cov = None
+    if payload.get('cov'):
+        # transparent input recorders around every function with a compiled twin (+ line recording of the Python twins)
+        global AUX_HOOK
+        import c04_cov
+        cov_info = {'install_problems': c04_cov.install()}
+        if not optimization.have_cython_functions:
+            cov_info['lines'] = c04_cov.start_lines()
+        AUX_HOOK = lambda: {'tags': c04_cov.take(), 'lines': c04_cov.LINES.take()}      # noqa: E731
     fs = {'programs': run_program, 'kernels': run_kernel, 'algos': run_algo}
     if kind == 'mixed':
-        res = isolated_all(lambda kc: fs[kc[0]](kc[1]), payload['cases'], batch=20)
+        def one(kc):
+            if cov_info is not None:
+                c04_cov.STREAM[0] = kc[2] if len(kc) > 2 else kc[0]
+            return fs[kc[0]](kc[1])
+        res = isolated_all(one, payload['cases'], batch=20)
     else:
         res = isolated_all(fs[kind], payload['cases'])
     info = {'have_cython': bool(optimization.have_cython_functions), 'tenpy_file': tenpy.__file__}
+    if cov_info is not None:
+        tags, lines = {}, {}
+        for aux in AUX_COLLECTED:
+            c04_cov.merge(tags, aux.get('tags'))
+            for k, v in (aux.get('lines') or {}).items():
+                lines[k] = sorted(set(lines.get(k, [])) | set(v))
+            if 'aux_error' in aux:
+                cov_info.setdefault('aux_errors', []).append(aux['aux_error'])
+        cov_info['tags'] = tags
+        cov_info['lines_hit'] = lines
+        info['cov'] = cov_info
     try:
         if optimization.have_cython_functions:
             from tenpy.linalg import _npc_helper
